@@ -618,7 +618,7 @@ Section Raw.
       rewrite (NoDup_nth ids 0%nat) in ND. apply ND in E1; auto. apply ND in E2; auto. subst a' b'.
       pose proof (offdiag_NoDup (length ids)) as NO. fold od in NO. rewrite (NoDup_nth od (0%nat, 0%nat)) in NO.
       assert (k' = k). { apply NO; auto; [rewrite combine_length in Lk'; lia|]. now rewrite Ek1, Eab. }
-      subst k'. now rewrite Ek2.
+      subst k'. symmetry. exact Ek2.
     - destruct (Reqb (nth k mg 0) 0) eqn:Ev; [left; now apply Reqb_true|]. right.
       exists (mkMig (nth b ids 0%nat) (nth a ids 0%nat) (sg_a (ar_stage ar)) (sg_b (ar_stage ar)) (nth k mg 0)).
       split; [|split; reflexivity]. unfold stage_migs. apply in_flat_map. exists ((a, b), nth k mg 0). split.
@@ -631,7 +631,7 @@ Section Raw.
     map (fun id => match find_deme G id with Some d => sizes_at_time d (win ar) | None => (1, 1, SConstant) end) (ids_of ar)
     = sg_sizes (ar_stage ar).
   Proof.
-    intros Har Ls. rewrite Forall_forall in Hids. destruct (Hids _ Har) as [A _]. pose proof (asc_NoDup _ _ _ A) as ND.
+    intros Har Ls. pose proof Hids as Hids'. rewrite Forall_forall in Hids'. destruct (Hids' _ Har) as [A _]. pose proof (asc_NoDup _ _ _ A) as ND.
     apply nth_ext with (d := (1, 1, SConstant)) (d' := (1, 1, SConstant)); [now rewrite map_length|].
     intros i Li. rewrite map_length in Li.
     set (h := fun id => match find_deme G id with Some d => sizes_at_time d (win ar) | None => (1, 1, SConstant) end).
@@ -654,7 +654,7 @@ Section Raw.
   Proof.
     intros Har Ld Ls Lm. cbv zeta. unfold rawstep. cbn [st_live st_iv st_T st_nus st_M st_fr].
     rewrite (present_raw ar Har). rewrite (sizes_list_raw ar Har Ls). repeat split.
-    rewrite Forall_forall in Hids. destruct (Hids _ Har) as [A _]. pose proof (asc_NoDup _ _ _ A) as ND.
+    pose proof Hids as Hids'. rewrite Forall_forall in Hids'. destruct (Hids' _ Har) as [A _]. pose proof (asc_NoDup _ _ _ A) as ND.
     set (ids := ids_of ar) in *.
     set (M := map (fun d_to => map (fun d_from => if Nat.eqb d_from d_to then 0 else mig_rate G d_from d_to (win ar)) ids) ids).
     set (nus := make_nu_func (sg_sizes (ar_stage ar)) (rawT (win ar)) 1).
@@ -671,6 +671,215 @@ Section Raw.
       rewrite (nth_indep _ _ (g 0%nat)) by (now rewrite map_length). rewrite (map_nth g). unfold g.
       destruct (Nat.eqb (nth b ids 0%nat) (nth a ids 0%nat)) eqn:E; auto. apply Nat.eqb_eq in E.
       rewrite (NoDup_nth ids 0%nat) in ND. apply ND in E; auto. lia.
-    - clear. induction ids; cbn; auto. now rewrite IHids.
+    - generalize ids. intros l. induction l; cbn [map length repeat]; auto. f_equal; auto.
+  Qed.
+
+  (** *** the events at the end of a window *)
+  Hypothesis Hevt : Forall (fun ar => Forall (fun te => Fin (fst te) = a_of ar) (ar_evs ar)) ann.
+  Hypothesis Hkind : Forall (fun ar => exists K, (K < 5)%nat /\ Forall (fun te => ev_kind te = K) (ar_evs ar)) ann.
+
+  Lemma filter_flat_map {A B} (p : B -> bool) (f : A -> list B) l : filter p (flat_map f l) = flat_map (fun x => filter p (f x)) l.
+  Proof. induction l; cbn; auto. now rewrite filter_app, IHl. Qed.
+  Lemma filter_comm {A} (p q : A -> bool) l : filter p (filter q l) = filter q (filter p l).
+  Proof. induction l as [|x l IH]; cbn; auto. destruct (p x) eqn:P, (q x) eqn:Q; cbn; rewrite ?P, ?Q, IH; auto. Qed.
+  Lemma flat_map_nil {A B} (f : A -> list B) l : (forall x, In x l -> f x = []) -> flat_map f l = [].
+  Proof. induction l; intros K; cbn; auto. rewrite K by now left. apply IHl. intros; apply K; now right. Qed.
+
+  Lemma kinds_all (l : list (tevent R)) K : (K < 5)%nat -> Forall (fun te => ev_kind te = K) l ->
+    flat_map (fun k => filter (fun te => Nat.eqb (ev_kind te) k) l) (seq 0 5) = l.
+  Proof.
+    intros LK F. rewrite Forall_forall in F.
+    assert (Y : filter (fun te => Nat.eqb (ev_kind te) K) l = l) by (apply filter_all; intros te H; rewrite (F te H); apply Nat.eqb_refl).
+    assert (N : forall k, k <> K -> filter (fun te => Nat.eqb (ev_kind te) k) l = []).
+    { intros k Hk. apply filter_none. intros te H. rewrite (F te H). apply Nat.eqb_neq. auto. }
+    cbn [seq flat_map].
+    destruct K as [|[|[|[|[|K]]]]]; try lia; rewrite Y, !N by lia; rewrite ?app_nil_r; reflexivity.
+  Qed.
+
+  Lemma raw_events_at P ar Q : ann = P ++ ar :: Q ->
+    events_at (raw_events_of ann) (Fin (b_of ar)) = map snd (ar_evs (hd dar Q)).
+  Proof.
+    intros E. unfold events_at. f_equal. unfold raw_events_of. rewrite filter_flat_map.
+    set (ft := fun te : tevent R => teqb (Fin (fst te)) (Fin (b_of ar))).
+    assert (Fa : filter ft (flat_map (@ar_evs R) ann) = ar_evs (hd dar Q)).
+    { rewrite filter_flat_map.
+      assert (Out : forall x, In x ann -> teqb (a_of x) (Fin (b_of ar)) = false -> filter ft (ar_evs x) = []).
+      { intros x Hx Hf. apply filter_none. intros te Hte. rewrite Forall_forall in Hevt. specialize (Hevt _ Hx).
+        rewrite Forall_forall in Hevt. unfold ft. now rewrite (Hevt _ Hte). }
+      rewrite E in *. rewrite flat_map_app. cbn [flat_map].
+      rewrite flat_map_nil.
+      2:{ intros x Hx. apply Out; [apply in_or_app; now left|]. destruct (chain_split _ _ _ x ar Hchain Hx) as (_ & _ & O); [now left|].
+          pose proof (achain_in _ _ ar Hchain) as Ha. apply tlt_neq. eapply tlt_trans; [apply Ha; apply in_or_app; right; now left|exact O]. }
+      rewrite Out; [|apply in_or_app; right; now left|apply tlt_neq; apply (achain_in _ _ ar Hchain); apply in_or_app; right; now left].
+      cbn [app]. destruct Q as [|nx Q']; [reflexivity|]. cbn [flat_map hd].
+      apply achain_app in Hchain as [top' C]. destruct C as (_ & _ & C). pose proof C as C0. destruct C as (C1 & C2 & C3).
+      rewrite flat_map_nil.
+      2:{ intros x Hx. apply Out; [apply in_or_app; right; right; now right|].
+          destruct (achain_after _ _ _ C0 x Hx) as [O1 O2].
+          assert (T : tlt (a_of x) (Fin (b_of ar))). { eapply tleb_tlt_trans; eauto. rewrite <- C1. apply (achain_in _ _ nx C0). now left. }
+          now apply tlt_neq. }
+      rewrite app_nil_r. apply filter_all. intros te Hte. rewrite Forall_forall in Hevt.
+      assert (Hnx : In nx (P ++ ar :: nx :: Q')) by (apply in_or_app; right; right; now left). specialize (Hevt _ Hnx).
+      rewrite Forall_forall in Hevt. unfold ft. rewrite (Hevt _ Hte), C1. apply teqb_refl. }
+    rewrite (flat_map_ext _ (fun k => filter (fun te => Nat.eqb (ev_kind te) k) (ar_evs (hd dar Q)))).
+    2:{ intros k. rewrite filter_comm. now rewrite Fa. }
+    destruct Q as [|nx Q']; [reflexivity|]. cbn [hd]. rewrite Forall_forall in Hkind.
+    destruct (Hkind nx) as (K & LK & FK); [rewrite E; apply in_or_app; right; right; now left|]. eapply kinds_all; eauto.
+  Qed.
+
+  (** every record is the annotation of its round, given the names of the previous record; a name that has gone is
+      nobody's ancestor afterwards *)
+  Hypothesis Hstep : forall P ar nx Q, ann = P ++ ar :: nx :: Q ->
+    exists next rb, nx = annotate next (ids_of ar) rb /\ asc 0 (ids_of ar) next /\ round_ok (length (ids_of ar)) (fst rb).
+  Hypothesis Hgone : forall P ar nx Q id, ann = P ++ ar :: nx :: Q -> In id (ids_of ar) -> ~ In id (ids_of nx) ->
+    Forall (fun y => Forall (fun b => ~ In id (b_anc b)) (ar_births y)) Q.
+
+  Lemma deme_last id : (id < n)%nat -> exists t, In t ann /\ inA id t = true /\ d_end (deme_of id) = b_of t.
+  Proof.
+    intros L. destruct (deme_life id L) as (A1 & A2 & A3 & E & N2 & F1 & F2 & F3 & _ & _ & Ee).
+    exists (last A2 dar). pose proof (last_In A2 dar N2) as Hl. rewrite Forall_forall in F2. repeat split; auto.
+    rewrite E. apply in_or_app. right. apply in_or_app. now left.
+  Qed.
+  Lemma deme_span id x : (id < n)%nat -> In x ann -> inA id x = true ->
+    tleb (a_of x) (d_start (deme_of id)) = true /\ tleb (Fin (d_end (deme_of id))) (Fin (b_of x)) = true.
+  Proof. intros L Hx M. pose proof (covers_raw id x L Hx) as C. rewrite M in C. now apply andb_prop in C. Qed.
+
+  Lemma remove_nth_other j (l : list nat) x : In x l -> x <> nth j l 0%nat -> In x (remove_nth j l).
+  Proof.
+    revert j. induction l as [|y l IH]; intros j Hx Hn; [destruct Hx|]. destruct j; cbn in *.
+    - destruct Hx as [->|Hx]; auto. congruence.
+    - destruct Hx as [->|Hx]; auto.
+  Qed.
+  Lemma remove_nth_self j (l : list nat) : NoDup l -> (j < length l)%nat -> ~ In (nth j l 0%nat) (remove_nth j l).
+  Proof.
+    revert j. induction l as [|y l IH]; intros j N L; [cbn in L; lia|]. inversion N; subst. destruct j; cbn in *; auto.
+    intros [K|K].
+    - apply H1. rewrite K. apply nth_In. lia.
+    - eapply IH; eauto. lia.
+  Qed.
+
+  Definition marg_expected (ar : arnd R) (Q : list (arnd R)) : list (event R) :=
+    match Q with
+    | nx :: _ => match ar_ev nx with SRemove k => [EMarg (nth1 k (ids_of ar))] | _ => [] end
+    | [] => []
+    end.
+
+  Lemma marg_contrib P ar Q id : ann = P ++ ar :: Q -> (id < n)%nat ->
+    let d := deme_of id in
+    map snd (filter (fun te => teqb (Fin (fst te)) (Fin (b_of ar)))
+      (if negb (mem (d_id d) (ids_of (last ann dar)))
+          && forallb (fun s => negb (tleb (d_start s) (Fin (d_end d)))) (successors G (d_id d))
+       then [(d_end d, EMarg (d_id d))] else []))
+    = match Q with
+      | nx :: _ => match ar_ev nx with SRemove k => if Nat.eqb id (nth1 k (ids_of ar)) then [EMarg id] else [] | _ => [] end
+      | [] => []
+      end.
+  Proof.
+    intros E L d. assert (Har : In ar ann) by (rewrite E; apply in_or_app; right; now left).
+    pose proof Hids as Hids'. rewrite Forall_forall in Hids'. destruct (Hids' _ Har) as [A _]. pose proof (asc_NoDup _ _ _ A) as ND.
+    assert (Did : d_id d = id) by reflexivity. rewrite Did.
+    set (cond := negb (mem id (ids_of (last ann dar))) && forallb (fun s => negb (tleb (d_start s) (Fin (d_end d)))) (successors G id)).
+    assert (Nil : teqb (Fin (d_end d)) (Fin (b_of ar)) = false \/ cond = false ->
+                  map snd (filter (fun te : tevent R => teqb (Fin (fst te)) (Fin (b_of ar))) (if cond then [(d_end d, EMarg id)] else [])) = []).
+    { intros [K|K]; [|now rewrite K]. destruct cond; auto. cbn [filter fst]. now rewrite K. }
+    assert (Later : forall x, In x Q -> inA id x = true -> teqb (Fin (d_end d)) (Fin (b_of ar)) = false).
+    { intros x Hx M. assert (Hx' : In x ann) by (rewrite E; apply in_or_app; right; now right).
+      destruct (deme_span id x L Hx' M) as [_ S2]. fold d in S2.
+      assert (C' : achain top ((P ++ [ar]) ++ Q)) by (rewrite <- app_assoc; rewrite <- E; exact Hchain).
+      destruct (chain_split _ _ _ ar x C') as (_ & O & _); [apply in_or_app; right; now left|auto|].
+      apply tlt_neq. eapply tleb_tlt_trans; eauto. }
+    destruct (mem id (ids_of ar)) eqn:Min.
+    2:{ (* not alive in this window: it does not end here *)
+      assert (K : teqb (Fin (d_end d)) (Fin (b_of ar)) = false).
+      { destruct (deme_last id L) as (t & Ht & Mt & Et). fold d in Et. rewrite Et. rewrite E in Ht, Hchain.
+        apply in_app_or in Ht as [Ht|[<-|Ht]].
+        - destruct (chain_split _ _ _ t ar Hchain Ht) as (_ & O & _); [now left|]. now apply tlt_neq in O as [_ O].
+        - unfold inA in Mt. congruence.
+        - assert (C' : achain top ((P ++ [ar]) ++ Q)) by (rewrite <- app_assoc; exact Hchain).
+          destruct (chain_split _ _ _ ar t C') as (_ & O & _); [apply in_or_app; right; now left|auto|]. now apply tlt_neq in O as [O _]. }
+      rewrite (Nil (or_introl K)). destruct Q as [|nx Q']; auto. destruct (Hstep P ar nx Q' E) as (next & rb & -> & _ & Kr).
+      cbn [annotate ar_ev]. destruct (r_ev (fst rb)) eqn:Eev; auto.
+      destruct Kr as (Kev & _). rewrite Eev in Kev. destruct Kev as [_ Kk].
+      destruct (Nat.eqb id (nth1 k (ids_of ar))) eqn:Eq; auto. apply Nat.eqb_eq in Eq. apply mem_false in Min. exfalso. apply Min.
+      rewrite Eq. apply nth_In. lia. }
+    apply mem_In in Min.
+    destruct Q as [|nx Q'].
+    { (* the last window: the deme is sampled *)
+      apply Nil. right. unfold cond. rewrite E, last_app_cons. cbn [last]. apply mem_In in Min. now rewrite Min. }
+    destruct (Hstep P ar nx Q' E) as (next & rb & Enx & An & Kr). destruct Kr as (Kev & _).
+    assert (Hnx : In nx ann) by (rewrite E; apply in_or_app; right; right; now left).
+    assert (Stay : In id (ids_of nx) -> map snd (filter (fun te : tevent R => teqb (Fin (fst te)) (Fin (b_of ar))) (if cond then [(d_end d, EMarg id)] else [])) = []).
+    { intros Hin. apply Nil. left. apply (Later nx); [now left|]. now apply mem_In. }
+    assert (Ends : ~ In id (ids_of nx) -> d_end d = b_of ar /\ mem id (ids_of (last ann dar)) = false).
+    { intros Hni. assert (M : inA id ar = true) by now apply mem_In.
+      destruct (deme_span id ar L Har M) as [S1 S2]. fold d in S1, S2.
+      assert (Cs : achain top ((P ++ [ar; nx]) ++ Q')) by (rewrite <- app_assoc; cbn [app]; rewrite <- E; exact Hchain).
+      assert (Cn : achain top ((P ++ [ar]) ++ nx :: Q')) by (rewrite <- app_assoc; cbn [app]; rewrite <- E; exact Hchain).
+      destruct (chain_split _ _ _ ar nx Cn) as (_ & On1 & On2); [apply in_or_app; right; now left|now left|].
+      assert (Ed : d_end d = b_of ar).
+      { destruct (deme_last id L) as (t & Ht & Mt & Et). fold d in Et. rewrite Et in *. rewrite E in Ht.
+        apply in_app_or in Ht as [Ht|[<-|[<-|Ht]]]; auto.
+        - exfalso. rewrite E in Hchain. destruct (chain_split _ _ _ t ar Hchain Ht) as (_ & O & _); [now left|].
+          unfold tlt in O. congruence.
+        - exfalso. apply Hni. now apply mem_In.
+        - exfalso. pose proof (covers_raw id nx L Hnx) as Cv. fold d in Cv.
+          assert (inA id nx = false) by (apply mem_false; exact Hni). rewrite H in Cv.
+          unfold covers, win in Cv. cbn [fst snd] in Cv.
+          destruct (chain_split _ _ _ nx t Cs) as (_ & O & _); [apply in_or_app; right; right; now left|auto|].
+          assert (T1 : tleb (a_of nx) (d_start d) = true). { eapply tleb_trans; eauto. now apply tlt_tleb. }
+          rewrite T1 in Cv. cbn [andb] in Cv. unfold d_end in Et. unfold d_end in Cv. rewrite Et in Cv. apply tlt_tleb in O. congruence. }
+      split; auto.
+      assert (Hl : In (last ann dar) (nx :: Q')). { rewrite E, last_app_cons. change (last (ar :: nx :: Q') dar) with (last (nx :: Q') dar). apply last_In. discriminate. }
+      assert (Hl' : In (last ann dar) ann) by (rewrite E at 2; apply in_or_app; right; now right).
+      pose proof (covers_raw id _ L Hl') as Cv. fold d in Cv. unfold inA in Cv. rewrite <- Cv.
+      unfold covers, win. cbn [fst snd]. rewrite Ed.
+      assert (O : tlt (Fin (b_of (last ann dar))) (Fin (b_of ar))).
+      { destruct (chain_split _ _ _ ar (last ann dar) Cn) as (_ & O & _); [apply in_or_app; right; now left|auto|auto]. }
+      unfold tlt in O. rewrite O. apply andb_false_r. }
+    rewrite Enx. cbn [annotate ar_ev]. rewrite Enx in Stay, Ends, Hnx. unfold ids_of in Stay, Ends. cbn [annotate ar_stage sg_ids] in Stay, Ends.
+    fold (ids_of ar) in Stay, Ends.
+    destruct (r_ev (fst rb)) as [|props|srcs dst props|k|ord] eqn:Eev; cbn [ev_ids] in Stay, Ends.
+    - (* new era: the deme ends here and its successor starts here *)
+      destruct Ends as [Ed Ms]. { intros K. apply in_seq in K. apply (asc_In _ _ _ _ An) in Min. lia. }
+      apply Nil. right. unfold cond. apply andb_false_intro2.
+      set (b := mkBirth (Fin (snd rb + r_T (fst rb))%num) [id]).
+      assert (Hb : In b births).
+      { unfold births, births_of. rewrite E. rewrite flat_map_app. apply in_or_app. right. cbn [flat_map]. apply in_or_app. right.
+        apply in_or_app. left. rewrite Enx. cbn [annotate ar_births]. rewrite Eev. cbn [ev_births]. apply in_map_iff. exists id. split; auto. }
+      destruct (In_nth _ _ dbirth Hb) as (j & Lj & Ej). fold n in Lj.
+      assert (Hs : In (deme_of j) (successors G id)).
+      { unfold successors. apply filter_In. split; [now apply deme_in|]. unfold deme_of, mkd. cbn [d_anc snd]. rewrite Ej. cbn. now rewrite Nat.eqb_refl. }
+      apply not_true_is_false. intros K. rewrite forallb_forall in K. specialize (K _ Hs). unfold deme_of, mkd in K. cbn [d_start snd] in K.
+      rewrite Ej, Ed in K. cbn [b_start b] in K. apply negb_true_iff in K.
+      assert (Ea : a_of nx = Fin (b_of ar)).
+      { rewrite E in Hchain. apply achain_app in Hchain as [top' C]. destruct C as (_ & _ & C1 & _). exact C1. }
+      rewrite Enx in Ea. unfold a_of in Ea. cbn [annotate ar_stage sg_a] in Ea. rewrite Ea in K. rewrite tleb_refl in K. discriminate.
+    - apply Stay. apply in_or_app. now left.
+    - now apply Stay.
+    - destruct Kev as [K2 Kk]. unfold nth1. destruct (Nat.eqb id (nth (k - 1) (ids_of ar) 0%nat)) eqn:Eq.
+      + apply Nat.eqb_eq in Eq. destruct Ends as [Ed Ms]. { rewrite Eq. apply remove_nth_self; auto. lia. }
+        assert (Cd : cond = true).
+        { unfold cond. rewrite Ms. cbn [negb andb]. apply forallb_forall. intros s Hs. unfold successors in Hs. apply filter_In in Hs as [Hs Ma].
+          rewrite g_demes_raw in Hs. apply in_map_iff in Hs as (j & <- & Hj). apply in_seq in Hj.
+          unfold deme_of, mkd in *. cbn [d_anc d_start snd] in *. apply mem_In in Ma.
+          assert (Hb : In (nth j births dbirth) births) by (apply nth_In; fold n; lia).
+          set (b := nth j births dbirth) in *. rewrite Ed. apply negb_true_iff.
+          unfold births, births_of in Hb. rewrite E in Hb. rewrite flat_map_app in Hb. apply in_app_or in Hb as [Hb|Hb].
+          * apply in_flat_map in Hb as (x & Hx & Hb). rewrite Forall_forall in Hstart.
+            assert (Hx' : In x ann) by (rewrite E; apply in_or_app; now left). specialize (Hstart _ Hx'). rewrite Forall_forall in Hstart.
+            rewrite (Hstart _ Hb). rewrite E in Hchain. destruct (chain_split _ _ _ x ar Hchain Hx) as (_ & _ & O); [now left|].
+            pose proof (achain_in _ _ ar Hchain) as Ha. eapply tlt_trans; [apply Ha; apply in_or_app; right; now left|exact O].
+          * cbn [flat_map] in Hb. apply in_app_or in Hb as [Hb|Hb].
+            -- rewrite Forall_forall in Hstart. specialize (Hstart _ Har). rewrite Forall_forall in Hstart. rewrite (Hstart _ Hb).
+               apply (achain_in _ _ ar Hchain Har).
+            -- apply in_app_or in Hb as [Hb|Hb]; [rewrite Enx in Hb; cbn [annotate ar_births] in Hb; rewrite Eev in Hb; destruct Hb|].
+               exfalso. pose proof (Hgone P ar nx Q' id E Min) as Hg. rewrite Enx in Hg. unfold ids_of at 2 in Hg.
+               cbn [annotate ar_stage sg_ids] in Hg. rewrite Eev in Hg. cbn [ev_ids] in Hg.
+               assert (Hni : ~ In id (remove_nth (k - 1) (ids_of ar))) by (rewrite Eq; apply remove_nth_self; auto; lia).
+               specialize (Hg Hni). apply in_flat_map in Hb as (y & Hy & Hb). rewrite Forall_forall in Hg. specialize (Hg _ Hy).
+               rewrite Forall_forall in Hg. apply (Hg _ Hb). exact Ma. }
+        rewrite Cd. cbn [filter fst]. rewrite Ed, teqb_refl. reflexivity.
+      + apply Nat.eqb_neq in Eq. apply Stay. now apply remove_nth_other.
+    - destruct Kev.
   Qed.
 End Raw.
